@@ -52,7 +52,13 @@ def run(rep, tier, seed):
         c["num_kind"] = False
     for c in c1:
         c["sections"] = ["meta", "ops", "modes", "params"]
-    cases = c1 + c7
+    # random scripts with TLC's Trace_Load as oracle
+    from .. import randcases
+    nr = 200 if tier == "quick" else 2000
+    rc = randcases.build(seed + 41, nr)
+    randcases.judge(rep, rc, "Trace_Load (single prediction for %d random scripts)" % nr)
+    cr = [dict(s=c["s"], out=c["out"], atoms=c["atoms"], sections=["meta", "ops", "modes", "params"]) for c in rc if c["out"]["k"] == "ok"]
+    cases = c1 + c7 + cr
     for i, c in enumerate(cases):
         c["seed"] = seed * 17 + i
     hs = seeds.hash_seeds(seed, 6 if tier == "quick" else 32)
